@@ -26,7 +26,11 @@ MANIFEST = {
             "any capability record stops it on every path of its outcome methods exactly when failfast is set) about "
             "a hand-written Gallina model of the failfast/shouldStop/stop plumbing of real.py, tied to /repo on every run by differential execution of "
             "model and real classes inside coqc, with status-word tables regenerated from the live code; plus "
-            "python -m testtools.run subprocess samples for the exit status.",
+            "python -m testtools.run subprocess samples for the exit status (the status the operating system "
+            "reports, including runs with 255 / 256 / 257 / 512 problems). Calls from several threads, each through "
+            "its own ThreadsafeForwardingResult over one target and semaphore: Coq model of the harness scheduler "
+            "(acquire / release as yield points), proved to let every call of every thread take effect exactly once "
+            "under every schedule, and to reduce to the sequential theorems.",
     "note": "Trusted: Coq kernel + vm_compute; the harness (generators, drivers, text parser, Gallina printer). "
             "Known finding F18 (failfast assigned on a ThreadsafeForwardingResult/TestResultDecorator/Tagger stack "
             "after wrapping, or failfast=True results inside a MultiTestResult) is delimited by Spec.C04.finding_F18; "
@@ -34,7 +38,10 @@ MANIFEST = {
             "(unittest.TestResult, the doubles) are outside the verdict clause (the statement does not list them); a "
             "foreign result never clears shouldStop at startTestRun, so for it 'not earlier than the first bad "
             "outcome' is stated over the whole history. Capability records of the foreign classes are probed on the "
-            "live classes by the harness. Exit status: sampled, not proved beyond run.py's one line.",
+            "live classes by the harness. Exit status: sampled, not proved beyond run.py's one line (C04_exit is about "
+            "the model's exit_status = sys.exit argument mod 256). Threads: real threads under vcheck.sched's "
+            "deterministic scheduler with the shared semaphore as the only yield points; the Coq scheduler model "
+            "mirrors sched.py's pick rule; true parallelism / other synchronisation objects are not explored.",
     "technique": "Coq proof (induction on adapter stacks + invariants over histories) + model/implementation "
                  "correspondence in coqc + CLI samples",
     "ref": "6 C04",
@@ -46,7 +53,11 @@ RULE = ("histories over startTestRun / startTest / six outcome kinds / stopTest 
         "+ random to depth 4 over TestResult/TextTestResult(failfast?)/E2S leaves, ExtendedToOriginalDecorator over "
         "a foreign result (unittest.TestResult, doubles Python26/Python27/Extended/Twisted) and "
         "Multi/TFR/E2O/Decorator/Tagger) with failfast optionally assigned on the outermost object "
-        "after wrapping; non-trivial = a bad outcome, plus failfast somewhere or a stop(), plus a second startTestRun "
+        "after wrapping; plus concurrent cases: a sequential prefix, then 2-4 threads each with its own "
+        "ThreadsafeForwardingResult over one target (12 fixed targets or random) and one semaphore, programs over "
+        "stop() / outcomes / startTestRun / stopTestRun (all pairs of programs of <= 2 calls over stop / bad / good "
+        "outcome under 3 (quick) or 8 schedules, fixed stop-while-sibling-holds-the-semaphore scenarios, random to 4 "
+        "calls per thread with random schedules); non-trivial = a bad outcome, plus failfast somewhere or a stop(), plus a second startTestRun "
         "or a stopTestRun; distinct = distinct JSON")
 TRUSTED = ["the parser of TextTestResult's text (section headers, 'Ran N test(s)', OK / FAILED (failures=n)); "
            "elapsed time ignored"]
@@ -55,7 +66,10 @@ ASSUMPTIONS = ["a stack containing a TextTestResult or an ExtendedToStreamDecora
                "lazily, which would reset shouldStop)",
                "failfast is assigned through constructors and on the outermost object only; MultiTestResult has at "
                "least one member",
-               "single thread (interleavings are C12)",
+               "concurrent cases: the shared semaphore's acquire and release are the only yield points (a non-blocking "
+               "acquire is a yield point too and fails when the semaphore is held); each call is observed on the "
+               "target when the calling adapter releases the semaphore, or at its return if it never did; the "
+               "adapters of the threads have no failfast assigned (atomicity of the forwarded blocks is C12)",
                "a foreign result is always driven through an ExtendedToOriginalDecorator (explicit; MultiTestResult "
                "and ThreadsafeForwardingResult add their own on top); its shouldStop is read on the object itself "
                "where it has the attribute, else on that decorator"]
@@ -177,7 +191,7 @@ def build(tree, path, nodes, leaves):
 
 
 _SECTION = re.compile(r"^={70}\n(ERROR|FAIL|UNEXPECTED SUCCESS): t(\d+)\n-{70}\n", re.M)
-_RAN = re.compile(r"^Ran (\d+) tests? in [0-9.]+s\n(OK|FAILED \(failures=(\d+)\))\n", re.M)
+_RAN = re.compile(r"^Ran (\d+) tests? in -?[0-9.]+s\n(OK|FAILED \(failures=(\d+)\))\n", re.M)
 
 
 def parse_summary(text):
@@ -198,7 +212,128 @@ def with_details(op):
     return bool(op[3]) if len(op) > 3 else op[1] in (1, 2, 4)
 
 
+def call_op(r, nodes, op, T, err):
+    """one call of the history on the object r (stop() on the node the path names)"""
+    from testtools.content import text_content
+    k = op[0]
+    if k == "R":
+        r.startTestRun()
+    elif k == "S":
+        r.startTest(T(op[1]))
+    elif k == "E":
+        r.stopTest(T(op[1]))
+    elif k == "O":
+        m = OUTCOMES[op[1]]
+        if with_details(op):
+            if m == "addSkip":
+                r.addSkip(T(op[2]), details={"reason": text_content("why")})
+            else:
+                getattr(r, m)(T(op[2]), details={"log": text_content("some log")})
+        elif m in ("addError", "addFailure", "addExpectedFailure"):
+            getattr(r, m)(T(op[2]), err)
+        elif m == "addSkip":
+            r.addSkip(T(op[2]), "why")
+        else:
+            getattr(r, m)(T(op[2]))
+    elif k == "Q":
+        r.stopTestRun()
+    elif k == "X":
+        (nodes[tuple(op[1])] if op[1] else r).stop()
+    else:
+        raise ValueError(op)
+
+
+def drive_conc(case):
+    """several ThreadsafeForwardingResults over one target with one semaphore, one per thread, the threads
+    interleaved by the deterministic scheduler (vcheck.sched); the semaphore's acquire and release are the yield
+    points.  Every call is observed once: when the adapter releases the semaphore during the call (the state of
+    the target at the end of the critical section), else when the call returns."""
+    import threading
+    from testtools import PlaceHolder
+    from testtools.testresult import real
+    from .. import sched as S
+
+    class Sem(S.SchedSemaphore):
+        """SchedSemaphore that honours acquire(blocking=False) / acquire(timeout=...) (one attempt, still a
+        yield point) and reports every release before it happens"""
+
+        def acquire(self, blocking=True, timeout=None):
+            if blocking and timeout is None:
+                return S.SchedSemaphore.acquire(self)
+            self.sched.park()
+            if self.count > 0:
+                self.count -= 1
+                return True
+            return False
+
+        def release(self, n=1):
+            on_release()
+            S.SchedSemaphore.release(self, n)
+
+    nodes, leaves = {}, []
+    err = _exc_info()
+    target = build(case["stack"][1], (0,), nodes, leaves)
+    sch = S.Scheduler(case["sched"], step_timeout=8.0)
+    sem = Sem(sch, 1)
+    r0 = real.ThreadsafeForwardingResult(target, sem)
+    nodes[()] = r0
+    adapters = [real.ThreadsafeForwardingResult(target, sem) for _ in case["threads"]]
+    tests = {}
+    lock = threading.Lock()
+
+    def T(t):
+        with lock:
+            if t not in tests:
+                tests[t] = PlaceHolder("t%d" % t)
+            return tests[t]
+    ok, stop, leaf_stop, order = [], [], [], []
+    sums = [[] for _ in leaves]
+    last = [0 for _ in leaves]
+    current = {}          # thread -> [op, observed?]
+
+    def observe(tid):
+        op = current[tid][0]
+        current[tid][1] = True
+        ok.append(bool(target.wasSuccessful()))
+        stop.append(bool(target.shouldStop))
+        leaf_stop.append([bool(l.shouldStop) for l, _ in leaves])
+        for j, (_, stream) in enumerate(leaves):
+            if stream is not None:
+                text = stream.getvalue()
+                if op[0] == "Q":
+                    sums[j].append(parse_summary(text[last[j]:]))
+                last[j] = len(text)
+        if tid >= 0:
+            order.append(tid)
+
+    def on_release():
+        tid = sch.current_tid()
+        if tid in current and not current[tid][1]:
+            observe(tid)
+
+    def run_calls(tid, r, ops):
+        for op in ops:
+            current[tid] = [op, False]
+            call_op(r, nodes, op, T, err)
+            if not current[tid][1]:
+                observe(tid)
+        current.pop(tid, None)
+
+    run_calls(-1, r0, case["hist"])           # harness thread: no scheduling
+    tasks = [sch.spawn(lambda j=j: run_calls(j, adapters[j], case["threads"][j]), name="worker%d" % j)
+             for j in range(len(case["threads"]))]
+    sch.run()
+    if sch.deadlock or sch.hung:
+        raise RuntimeError("deadlock" if sch.deadlock else "hang")
+    for t in tasks:
+        if t.exc is not None:
+            raise t.exc
+    return {"ok": ok, "stop": stop, "leaf_stop": leaf_stop, "sums": sums, "order": order}
+
+
 def drive(case):
+    if case.get("threads") is not None:
+        return drive_conc(case)
     from testtools import PlaceHolder
     from testtools.content import text_content
     nodes, leaves = {}, []
@@ -295,11 +430,17 @@ def t_bools(l):
 
 
 def term(case, o):
+    if case.get("threads") is not None:
+        conc = "(Some (%s, %s))" % (q.lst([q.lst([t_op(op) for op in p]) for p in case["threads"]]),
+                                   q.lst([q.nat(x) for x in case["sched"]]))
+    else:
+        conc = "None"
     i = q.record([("stack", t_stack(case["stack"])), ("set_after", q.option(case["set"], q.boolean)),
-                  ("hist", q.lst([t_op(op) for op in case["hist"]]))])
+                  ("hist", q.lst([t_op(op) for op in case["hist"]])), ("conc", conc)])
     ob = q.record([("o_ok", t_bools(o["ok"])), ("o_stop", t_bools(o["stop"])),
                    ("o_leaf_stop", q.lst([t_bools(l) for l in o["leaf_stop"]])),
-                   ("o_sums", q.lst([q.lst([t_summary(s) for s in l]) for l in o["sums"]]))])
+                   ("o_sums", q.lst([q.lst([t_summary(s) for s in l]) for l in o["sums"]])),
+                   ("o_order", q.lst([q.nat(x) for x in o.get("order", [])]))])
     return q.pair(i, ob)
 
 
@@ -450,16 +591,105 @@ def generate(rng, tier):
             mode = (k // 3) % 3
             k += 1
             cases.append({"stack": s, "set": st, "hist": fix(s, reported([list(x) for x in w], mode))})
-    n_rand = 2200 if tier == "quick" else 60000
+    n_rand = 1700 if tier == "quick" else 60000
     for _ in range(n_rand):
         s = rng.choice(STACKS) if rng.random() < 0.4 else rand_stack(rng, rng.choice([1, 2, 3, 4]))
         st = rng.choice([None, None, True, True, False])
         h = rand_hist(rng, rng.choice([4, 8, 12, 20, 30, 40]), s)
         cases.append({"stack": s, "set": st, "hist": fix(s, h)})
+    cases += generate_conc(rng, tier)
+    return cases
+
+
+# ---------------- several adapters over one target, one thread each ----------------
+CONC_TARGETS = [R(), R(True), R(False, True), R(True, True), ["S"], X("ext"), X("26"), X("tw"),
+                ["M", [R(), R(False, True)]], ["O", R()], ["D", False, R(True)], ["M", [X("ut"), ["S"]]]]
+CONC_SCHEDS = [[], [1], [0, 1], [1, 0, 0], [0, 1, 1, 0], [1, 1, 0], [0, 0, 1, 1], [1, 0, 1, 0, 1]]
+
+
+def conc_case(target, threads, sched, prefix=()):
+    s = ["F", target]
+    return {"stack": s, "set": None, "hist": fix(s, [list(op) for op in prefix]),
+            "threads": [[list(op) for op in p] for p in threads], "sched": list(sched)}
+
+
+def conc_programs(maxlen):
+    """all programs of 1..maxlen calls over stop() / a bad outcome / a good outcome"""
+    alpha = [("X",), ("B",), ("G",)]
+    out = []
+    for n in range(1, maxlen + 1):
+        out += [list(w) for w in itertools.product(alpha, repeat=n)]
+    return out
+
+
+def conc_instantiate(j, prog, k):
+    """the calls of thread j; k varies the kind of outcome and the way it is reported"""
+    ops = []
+    for n, (c,) in enumerate(prog):
+        t = 10 * (j + 1) + n
+        if c == "X":
+            ops.append(["X", []])
+        elif c == "B":
+            ops.append(["O", BAD[(k + j + n) % 3], t, (k + n) % 2 == 0])
+        else:
+            ops.append(["O", (0, 3, 4)[(k + j + n) % 3], t, (k + j) % 2 == 0])
+    return ops
+
+
+def rand_conc_ops(rng, j, n):
+    ops = []
+    for m in range(n):
+        x = rng.random()
+        t = 10 * (j + 1) + m
+        if x < 0.22:
+            ops.append(["X", []])
+        elif x < 0.30:
+            ops.append(["R"])
+        elif x < 0.38:
+            ops.append(["Q"])
+        elif x < 0.65:
+            ops.append(["O", rng.choice(BAD), t, rng.random() < 0.5])
+        else:
+            ops.append(["O", rng.choice([0, 0, 3, 4]), t, rng.random() < 0.5])
+    return ops
+
+
+def generate_conc(rng, tier):
+    cases = []
+    # fixed: stop() on one adapter while its sibling is inside the target / between two tests / before anything
+    b1, g1, g2 = ["O", 2, 11, True], ["O", 0, 11, True], ["O", 0, 12, False]
+    for tg in CONC_TARGETS:
+        for sc in ([], [0, 1], [0, 1, 1], [1, 0, 0, 0], [0, 1, 0, 1, 0]):
+            cases.append(conc_case(tg, [[g1, g2], [["X", []]]], sc))
+            cases.append(conc_case(tg, [[b1, g2, ["Q"]], [["O", 0, 21, True], ["X", []]]], sc, prefix=[["R"]]))
+        cases.append(conc_case(tg, [[["X", []]], [["R"]], [g1]], [2, 1, 0, 0]))
+        cases.append(conc_case(tg, [[], [["X", []]]], [1]))
+    # two threads, every pair of programs over stop / bad outcome / good outcome, under several schedules
+    progs = conc_programs(2)
+    k = 0
+    for p0 in progs:
+        for p1 in progs:
+            scheds = CONC_SCHEDS if tier != "quick" else [CONC_SCHEDS[(k + d) % len(CONC_SCHEDS)] for d in (0, 3, 5)]
+            for sc in scheds:
+                tg = CONC_TARGETS[k % len(CONC_TARGETS)]
+                cases.append(conc_case(tg, [conc_instantiate(0, p0, k), conc_instantiate(1, p1, k)], sc))
+                k += 1
+    for _ in range(300 if tier == "quick" else 12000):
+        tg = rng.choice(CONC_TARGETS) if rng.random() < 0.6 else rand_stack(rng, rng.choice([1, 2]))
+        n = rng.choice([2, 2, 2, 3, 3, 4])
+        threads = [rand_conc_ops(rng, j, rng.choice([0, 1, 2, 2, 3, 4])) for j in range(n)]
+        total = sum(len(p) for p in threads)
+        sc = [rng.randrange(n) for _ in range(rng.randint(0, 2 * total + 2))]
+        prefix = rand_hist(rng, rng.choice([0, 0, 3, 6]), ["F", tg])
+        cases.append(conc_case(tg, threads, sc, prefix=prefix))
     return cases
 
 
 def nontrivial(case):
+    if case.get("threads") is not None:
+        # a stop() or a bad outcome from one thread and calls from another
+        busy = [p for p in case["threads"] if p]
+        return len(busy) >= 2 and any(op[0] == "X" or (op[0] == "O" and op[1] in BAD) for p in busy for op in p)
     h = case["hist"]
     bad = any(op[0] == "O" and op[1] in BAD for op in h)
     ff = case["set"] is not None or '"R", true' in json.dumps(case["stack"])
@@ -499,7 +729,33 @@ def _sub_stacks(t):
         yield t[:-1] + [s]
 
 
+def shrink_conc(case):
+    th, sc, tg = case["threads"], case["sched"], case["stack"][1]
+    pre = [op for op in case["hist"]]
+    for j in range(len(th)):
+        if len(th) > 1:
+            yield conc_case(tg, th[:j] + th[j + 1:], [x for x in sc if x < len(th) - 1], prefix=pre)
+        for n in range(len(th[j])):
+            yield conc_case(tg, th[:j] + [th[j][:n] + th[j][n + 1:]] + th[j + 1:], sc, prefix=pre)
+    for n in range(len(sc)):
+        yield conc_case(tg, th, sc[:n] + sc[n + 1:], prefix=pre)
+    for n in range(len(pre)):
+        yield conc_case(tg, th, sc, prefix=pre[:n] + pre[n + 1:])
+    for t2 in _sub_stacks(tg):
+        if not any(op[0] == "X" and op[1] for op in pre):
+            yield conc_case(t2, th, sc, prefix=pre)
+    for j in range(len(th)):
+        for n, op in enumerate(th[j]):
+            if op[0] == "O" and op[1] not in (0, 1):
+                op2 = ["O", 1 if op[1] in BAD else 0, op[2], with_details(op)]
+                yield conc_case(tg, th[:j] + [th[j][:n] + [op2] + th[j][n + 1:]] + th[j + 1:], sc, prefix=pre)
+
+
 def shrink(case):
+    if case.get("threads") is not None:
+        for c in shrink_conc(case):
+            yield c
+        return
     h, s, st = case["hist"], case["stack"], case["set"]
     for i in range(len(h)):
         h2 = h[:i] + h[i + 1:]
@@ -526,8 +782,18 @@ def shrink(case):
 def distribution(cases):
     d = {"hist_len": {}, "stack_kinds": {}, "foreign_flavours": {}, "set_after": {"none": 0, "true": 0, "false": 0},
          "with_stop": 0, "with_bad_outcome": 0, "bad_outcome_with_details": 0, "bad_outcome_without_details": 0,
-         "uxsuccess_with_details_on_foreign": 0, "restarts": 0, "ctor_failfast": 0, "nontrivial": 0}
+         "uxsuccess_with_details_on_foreign": 0, "restarts": 0, "ctor_failfast": 0, "nontrivial": 0,
+         "concurrent": {"cases": 0, "threads": {}, "calls": {}, "schedule_len": {}, "stop_from_a_thread": 0,
+                        "with_prefix": 0}}
     for c in cases:
+        if c.get("threads") is not None:
+            cc = d["concurrent"]
+            cc["cases"] += 1
+            for key, val in (("threads", len(c["threads"])), ("calls", sum(len(p) for p in c["threads"])),
+                             ("schedule_len", len(c["sched"]))):
+                cc[key][str(val)] = cc[key].get(str(val), 0) + 1
+            cc["stop_from_a_thread"] += any(op[0] == "X" for p in c["threads"] for op in p)
+            cc["with_prefix"] += bool(c["hist"])
         n = len(c["hist"])
         b = "0-4" if n <= 4 else "5-10" if n <= 10 else "11-25" if n <= 25 else "26+"
         d["hist_len"][b] = d["hist_len"].get(b, 0) + 1
@@ -596,15 +862,36 @@ GLUE_KINDS = ["pass", "fail", "error", "skip", "xfail", "uxsuccess"]
 GLUE_BAD = ("fail", "error", "uxsuccess")
 
 
+def big_runs(tier, rng):
+    """runs whose number of problems is around a multiple of 256: the operating system reports sys.exit's
+    argument modulo 256, so a status that grows with the number of problems would read 0 (success) there"""
+    def mix(total, rng):
+        e = rng.randint(1, 9)
+        u = rng.randint(1, 5)
+        kinds = ["error"] * e + ["uxsuccess"] * u + ["fail"] * (total - e - u)
+        kinds += ["pass"] * rng.randint(0, 3) + ["skip", "xfail"]
+        rng.shuffle(kinds)
+        return kinds
+    runs = [["fail"] * 256, mix(256, rng), mix(255, rng), mix(257, rng), mix(128, rng)]
+    if tier != "quick":
+        runs += [["error"] * 256, ["uxsuccess"] * 256, mix(512, rng), mix(511, rng), mix(513, rng), mix(768, rng),
+                 ["pass"] * 256]
+    return runs
+
+
 def extra_checks(tier, rng):
     n = 12 if tier == "quick" else 60
+    big = big_runs(tier, rng)
     out = []
     repo = os.environ.get("VERIF_REPO", "/repo")
     root = os.path.dirname(os.path.dirname(os.path.dirname(os.path.dirname(os.path.abspath(__file__)))))
     os.makedirs(os.path.join(root, ".work"), exist_ok=True)
-    for k in range(n):
+    for k in range(n + len(big)):
         suite = ("plain", "concurrent", "none")[k % 3]
-        if k < 3:
+        if k >= n:
+            kinds = big[k - n]
+            suite = ("plain", "concurrent")[k % 2]
+        elif k < 3:
             kinds = ["pass", "skip", "xfail"]          # all good: exit 0 also for suites whose run() returns None (F17)
         elif k < 9:
             kinds = ["pass", ("fail", "error", "uxsuccess", "fail", "uxsuccess", "error")[k - 3]]
@@ -617,7 +904,7 @@ def extra_checks(tier, rng):
             with open(os.path.join(d, "vc04mod.py"), "w") as f:
                 f.write(MODULE % (kinds, suite))
             env = dict(os.environ, PYTHONPATH=repo + os.pathsep + d)
-            direct = (k // 3) % 2 == 0
+            direct = (k // 3) % 2 == 0 if k < n else (k - n) % 2 == 1
             if direct:
                 with open(os.path.join(d, "vc04direct.py"), "w") as f:
                     f.write(DIRECT)
@@ -626,11 +913,17 @@ def extra_checks(tier, rng):
                 cmd = [sys.executable, "-m", "testtools.run", "vc04mod.test_suite"]
             p = subprocess.run(cmd, capture_output=True, text=True, env=env, cwd=d, timeout=120)
             m = _RAN.search(p.stdout)
-            want_rc = 1 if nbad else 0
-            ok = (p.returncode == want_rc and m is not None and int(m.group(1)) == len(kinds)
+            want_rc = 1 if nbad else 0        # what the current run.py gives (Model.Result.exit_status)
+            # the statement: the status the operating system reports agrees with the verdict - 0 exactly for a
+            # successful run (a negative returncode = killed by a signal never agrees)
+            agrees = (p.returncode == 0) == (nbad == 0) and p.returncode >= 0
+            ok = (agrees and m is not None and int(m.group(1)) == len(kinds)
                   and ((m.group(2) == "OK") == (nbad == 0)) and (nbad == 0 or int(m.group(3)) == nbad))
+            shown = kinds if len(kinds) <= 12 else dict((x, kinds.count(x)) for x in sorted(set(kinds)))
             out.append({"ok": ok, "suite": suite, "how": "TestProgram, suite passed as loaded" if direct else
-                        "python -m testtools.run", "kinds": kinds, "exit_status": p.returncode, "expected": want_rc,
+                        "python -m testtools.run", "kinds": shown, "problems": nbad,
+                        "exit_status": p.returncode, "expected": "0" if nbad == 0 else "not 0",
+                        "as_the_model": p.returncode == want_rc,
                         "summary": m.group(0) if m else None, "stderr": p.stderr[-300:]})
         finally:
             import shutil
